@@ -64,6 +64,12 @@ def run_case(case):
             counters["resumed_histories_judged"] += 1
             recorded.judge_history(rr, where + f" [resumed from iteration {it} via {'bytes' if it % 2 else 'dict'}]", viol, counters, mutated=None)
             resumed_from.append(it)
+    if cfg["sampler"] in ("smc", "emcee_smc") and g.random() < 0.4:
+        again = recorded.record_again(base, rng=np.random.default_rng(cfg["rng_seed"] + 23) if cfg["sampler"] == "smc" else None)
+        if again.exc is not None:
+            raise again.exc
+        counters["second_runs_on_same_sampler"] += 1
+        recorded.judge_history(again, where + " [second fresh run on the same sampler object]", viol, counters, mutated=again.rec.mutated)
     sched = "fixed" if not cfg["opts"].get("adaptive", True) else "adaptive"
     sig = f"{cfg['sampler']}|{cfg['xp']}|{cfg['dtype']}|{sched}|{T}|{resumed_from}"
     seen = {}
